@@ -17,13 +17,16 @@ def main() -> int:
     mname, tier = sys.argv[1], sys.argv[2]
     mod = importlib.import_module(mname)
     entered = set()
+    import os
+
+    SRC = os.environ.get("VF_REPO", "/repo") + "/src/"
 
     def prof(frame, event, arg):
         if event == "call":
             co = frame.f_code
             fn = co.co_filename
-            if fn.startswith("/repo/src/graphql/"):
-                entered.add(fn[len("/repo/src/"):-3].replace("/", ".") + "." + co.co_qualname)
+            if fn.startswith(SRC + "graphql/"):
+                entered.add(fn[len(SRC):-3].replace("/", ".") + "." + co.co_qualname)
 
     failures = []
     violated = []
